@@ -855,6 +855,16 @@ sendpld_flush(br_ssl_engine_context *rc, int force)
 	if (xlen == 0 && !force) {
 		return;
 	}
+
+	/*
+	 * With a shared buffer, the record being assembled now occupies
+	 * it: no incoming data may be accepted until it has been sent
+	 * (a forced flush of an empty record does not go through
+	 * sendpld_ack(), which normally performs that switch).
+	 */
+	if (rc->iomode == BR_IO_INOUT && rc->ibuf == rc->obuf) {
+		rc->iomode = BR_IO_OUT;
+	}
 	buf = rc->out.vtable->encrypt(&rc->out.vtable,
 		rc->record_type_out, rc->version_out,
 		rc->obuf + rc->oxc, &xlen);
